@@ -674,6 +674,11 @@ class Tree:
         `name` may be 'Class::method'.
         """
         if "::" in name and cls is None:
+            if name.count("::") >= 2 or not any(f.cls == name.rsplit("::", 1)[0].split("::")[-1] for f in self.file(rel).funcs):
+                # nested scopes: match on the qualified-name suffix
+                q = [f for f in self.file(rel).funcs if f.qual == name or f.qual.endswith("::" + name)]
+                if q:
+                    return q
             cls, name = name.rsplit("::", 1)
             cls = cls.split("::")[-1]
         out = [f for f in self.file(rel).funcs if f.name == name and (cls is None or f.cls == cls)]
